@@ -1302,6 +1302,18 @@ def run_identity_family(ctx):
     for (d, fl, desc, opts, ts, rep), bad, n in outs:
         st["runs"] += 1
         st["records"] += n
+        if bad and "TX" in json.dumps(desc["steps"]):
+            # open finding F-C04-THREAD-EXEC-ORDER (listed for C03 too): after exec from a non-initial thread the
+            # recorder can flush the new image's own first buffer early; timing dependent (about 1 run in 50 under
+            # load).  It counts as that finding only if the very same job passes when it is run again: a defect
+            # that is really in the tree fails both times and is reported.
+            bad2 = one((d, fl, desc, opts, ts, rep + 100))[1]
+            ent = next((f for f in C.known_findings("C03") if f["id"] == "F-C04-THREAD-EXEC-ORDER" and f["status"] == "open"), None)
+            if not bad2 and ent is not None:
+                st["known_thread_exec_order"] = st.get("known_thread_exec_order", 0) + 1
+                C.known(ctx, ent, "F-C04-THREAD-EXEC-ORDER exec from a non-initial thread: the image after exec lost the order of "
+                                  "its buffers in one run and not in the repeated run (timing dependent; %s)" % bad[0][:140])
+                bad = None
         if bad:
             st["failures"] += 1
             if st["failures"] <= 2:
